@@ -44,4 +44,20 @@ CLAIMED['C04'] = dict(category='proof',
         '19-pin, >19-pin); constant properties within a step. Not decided: the limit for temperature-dependent coolants '
         'is evaluated at the two end temperatures only. Gap-coolant kernels of core.py: see C02/C09 status.',
    technique='contract-based deductive verification (exact affine decomposition of the real kernels + normaliser / sign certificates / z3)')
+CLAIMED['C14'] = dict(category='proof',
+   text='Post-conditions of the real pressure-drop methods for all real inputs: friction and gravity increments equal '
+        'the closed forms f dz rho v^2/(2 De) and rho g dz, are non-negative and additive in dz (hence step-size '
+        'independent), the region total is the sum of its parts and only grows, a spacer grid anywhere in two consecutive '
+        'steps (za, zb], (zb, zc] - including exactly on the plane zb - is charged exactly once, and the assembly total '
+        'accumulates a finished region exactly once across a region change.',
+   note=_ASSUME + 'Friction factor, velocity and density are the static values held by the region (positive atoms).',
+   technique='contract-based deductive verification (proxy execution, path enumeration over the grid comparisons, exact normaliser)')
+CLAIMED['C15'] = dict(category='proof',
+   text='The running-maximum updates of the real Assembly methods are proved as fold steps for arbitrary real '
+        'temperatures on every comparison path: new peak is attained and bounds the old peak and all cells, the height '
+        'changes iff the old peak is strictly exceeded, region duct d of n writes entry len-n+d and nothing else, and '
+        'the stored pin profile is the complete row (with this plane\'s z) of a pin attaining the new peak.',
+   note=_ASSUME + 'Small array sizes (3 cells, 2-3 pins, 1-3 ducts) - the methods use only max/argmax over the arrays; '
+        'the whole-sweep claim is the induction over steps. Printed tables are not decided.',
+   technique='contract-based deductive verification (proxy execution with exhaustive path enumeration over comparisons)')
 NOT_APPLICABLE = {f'C{i:02d}': 'check not built yet in this round (see DESIGN.md section 12 build order)' for i in range(1, 21)}
